@@ -26,7 +26,7 @@ theorem reset_eq_init (s : Enc) (h : Reach s) :
   view_reset_eq_fresh (reach_inv h)
 
 example : Reach (encodeStep ⟨fun _ _ => .full, fun _ _ => ⟨.used 1, 5, 77, 1104, .used 2, 17000⟩,
-    fun v _ _ => ⟨1, v.forceChannels, 1000, 1103, 1103, 0, 0, 0, 1, true, .used 3,
+    fun _ _ _ => ⟨1, 1000, 1103, 1103, 0, 0, 0, 1, true, .used 3,
                   silkCtlInit 16000 1, .used 4, celtCfgInit 16000 1 0, 16384, 1, 2, .used 5, .used 6, 0, 0, 99, 1000, 1, 320, 0⟩,
     fun _ _ => ⟨35, 1⟩⟩ (encInit 16000 1 2048 0 18152 38416) ⟨320, 1500, 16, 0, 7⟩).1 :=
   .encode _ _ (.init ..)
@@ -40,7 +40,7 @@ theorem reset_indistinguishable (O : Oracles) (G : GetOracle) (s : Enc) (h : Rea
   run_congr O G ops (reset_eq_init s h)
 
 example : run ⟨fun _ _ => .lowBudget, fun v _ => ⟨.used 1, 0, v.voiceRatio, 0, .used 1, 0⟩,
-                fun _ _ _ => ⟨1, 1, 1, 1, 1, 1, 1, 1, 1, false, .fresh, silkCtlInit 8000 1, .fresh, celtCfgInit 8000 1 0,
+                fun _ _ _ => ⟨1, 1, 1, 1, 1, 1, 1, 1, false, .fresh, silkCtlInit 8000 1, .fresh, celtCfgInit 8000 1 0,
                               1, 1, 1, .fresh, .fresh, 1, 1, 1, 1, 1, 1, 1⟩, fun v _ => ⟨v.voiceRatio, 0⟩⟩
               ⟨fun v r => if r = 4011 then v.complexity else v.rangeFinal⟩
               (encInit 8000 1 2048 0 18152 38416) [.set 4010 3, .get 4011, .encode ⟨160, 2, 16, 0, 0⟩, .reset, .get 4011]
@@ -55,7 +55,7 @@ example :
     ∃ s, Reach s ∧
       ¬ ObsEq (encResetUnrepaired s) (encFresh s.fs s.channels s.arch s.silkEncOffset s.celtEncOffset (settingsOf s)) := by
   refine ⟨(encodeStep ⟨fun _ _ => .full, fun _ _ => ⟨.used 1, 5, 77, 1104, .used 2, 17000⟩,
-      fun v _ _ => ⟨1, v.forceChannels, 1000, 1103, 1103, 0, 0, 0, 1, true, .used 3,
+      fun _ _ _ => ⟨1, 1000, 1103, 1103, 0, 0, 0, 1, true, .used 3,
                     silkCtlInit 16000 1, .used 4, celtCfgInit 16000 1 0, 16384, 1, 2, .used 5, .used 6, 0, 0, 99, 1000, 1, 320, 0⟩,
       fun _ _ => ⟨35, 1⟩⟩ (encInit 16000 1 2048 0 18152 38416) ⟨320, 1500, 16, 0, 7⟩).1, .encode _ _ (.init ..), ?_⟩
   decide
